@@ -1089,6 +1089,8 @@ def kind_of(a):
 def attempt(fn):
     try:
         return ("ok", fn())
+    except core.SkipCase:
+        raise
     except Exception as e:  # canonicalised to ok/err; the class is kept for the evidence / known()
         return ("err", f"{type(e).__name__}: {str(e)[:90]}")
 
@@ -1310,7 +1312,7 @@ def aligned_with_source(ctx, g_mesh, axis_map, fail, what):
 def run_sel(ctx, op, r, fail):
     f, mesh = ctx.f, ctx.mesh
     args, kwargs = sel_call(op)
-    r["conv"] = attempt(lambda: mesh._sel_convert_input(*args, **kwargs))
+    r["conv"] = attempt(lambda: core.private(mesh, "_sel_convert_input")(*args, **kwargs))
     r["mesh"] = attempt(lambda: mesh.sel(*args, **kwargs))
     r["field"] = attempt(lambda: f.sel(*args, **kwargs))
     what = f"sel({op['dim']}={op['arg']})"
